@@ -835,11 +835,16 @@ def c04_cases(thorough):
     [R('D1', x, value=Bin('+', x, N(1)), body=(Lit('A1', x),)), R('F', x, Call('D1', x), body=(Lit('B1', x),)), Functor('G', 'F', (('A1', 'C1'),))],
     [R('D1', x, body=(Lit('A1', x),)), R('F', x, s_, body=(Lit('B1', x), Eq(s_, Comb('Sum', y, (Lit('D1', y), Cmp('<=', y, x)))))), Functor('G', 'F', (('A1', 'C1'),)), Functor('H', 'F', (('D1', 'C1'),))],
     [R('D1', x, body=(Lit('A1', x),), order_by=['col0'], limit=1), R('F', x, body=(Lit('D1', x),)), Functor('G', 'F', (('A1', 'C1'),))],
+    # two instantiated predicates carry annotations of the same kind: both copies must inherit theirs
+    [R('D1', x, body=(Lit('A1', x),), order_by=['col0 desc'], limit=2), R('F', x, body=(Lit('D1', x),), order_by=['col0'], limit=1), Functor('G', 'F', (('A1', 'C1'),))],
+    [R('D1', x, body=(Lit('A1', x),)), R('F', x, body=(('or', ((Lit('D1', x),), (Lit('B1', x),))),)), Ann('@OrderBy(F, "col0 desc");'), Ann('@Limit(F, 2);'), Ann('@OrderBy(D1, "col0");'), Ann('@Limit(D1, 1);'), Functor('G', 'F', (('A1', 'C1'),))],
+    [R('D1', x, body=(Lit('A1', x),)), R('F', x, body=(('or', ((Lit('D1', x),), (Lit('B1', x),))),)), Ann('@OrderBy(D1, "col0");'), Ann('@Limit(D1, 1);'), Ann('@OrderBy(F, "col0 desc");'), Ann('@Limit(F, 2);'), Functor('G', 'F', (('A1', 'C1'),))],
   ]
   for stmts in extra:
     p = Program(stmts)
     preds = [pp for pp in p.defined() if pp not in ('Thr', 'Thr1')]
-    dbs2 = dbs if not any(getattr(s, 'limit', None) is not None for s in stmts) else [d for d in dbs if all(len(set(v)) == len(v) for v in d.values())]
+    limited = any(getattr(s, 'limit', None) is not None for s in stmts) or any(isinstance(s, Ann) and '@Limit' in s.text for s in stmts)
+    dbs2 = dbs if not limited else [d for d in dbs if all(len(set(v)) == len(v) for v in d.values()) and not (set(d['A1']) & set(d['B1']))]
     yield Case('FUNCTOR-X', p, preds, schema='U4', dbs=dbs2, fact_dbs=[])
 
 
